@@ -12,6 +12,7 @@ import (
 	"strconv"
 
 	"github.com/oasisprotocol/curve25519-voi/curve"
+	"github.com/oasisprotocol/curve25519-voi/internal/elligator"
 	"github.com/oasisprotocol/curve25519-voi/internal/field"
 )
 
@@ -24,6 +25,10 @@ func flSigs() (names []string, sig map[string]string) {
 	for _, n := range curve.VerifFLSorted() {
 		names = append(names, n)
 		sig[n] = curve.VerifFLNames()[n]
+	}
+	for _, n := range elligator.VerifFLSorted() {
+		names = append(names, n)
+		sig[n] = elligator.VerifFLNames()[n]
 	}
 	return
 }
@@ -58,7 +63,25 @@ func genT2(g *Gen) {
 			}
 			f := []string{"T2", "run", n}
 			for i, k := range sig[n] {
-				if k == 'b' {
+				if k == 'y' {
+					// encodings: structured (a canonical value, optionally with bit 255 set) or any 256-bit string
+					x := val()
+					switch g.Intn(4) {
+					case 0:
+						x = new(big.Int).Add(new(big.Int).Mod(x, refP), two255)
+					case 1:
+						x = leInt(g.Bytes(32))
+					case 2:
+						x = new(big.Int).Mod(x, refP)
+					}
+					if round < len(specials) {
+						x = specials[round]
+						if i%2 == 1 {
+							x = new(big.Int).Add(x, two255)
+						}
+					}
+					f = append(f, x.String())
+				} else if k == 'b' {
 					f = append(f, strconv.Itoa((round+i)&1))
 				} else if round == 0 {
 					f = append(f, specials[(i*3)%len(specials)].String())
@@ -98,12 +121,18 @@ func execT2(op string, a []string) string {
 			in = append(in, leBytes(v, 32))
 		}
 	}
-	out, bout, ok := field.VerifFL(a[0], in, bools)
+	out, bout, failed, ok := field.VerifFL(a[0], in, bools)
 	if !ok {
-		out, bout, ok = curve.VerifFL(a[0], in, bools)
+		out, bout, failed, ok = curve.VerifFL(a[0], in, bools)
+	}
+	if !ok {
+		out, bout, failed, ok = elligator.VerifFL(a[0], in, bools)
 	}
 	if !ok {
 		return "err no-such-program"
+	}
+	if failed {
+		return "err"
 	}
 	r := "ok"
 	for _, o := range out {
